@@ -101,7 +101,7 @@ def run(tier, seed):
     n_core, n_opt = (60000, 20000) if thorough else (1800, 600)
     agg = {"blocks": 0, "distinct": set(), "opcodes": {}, "transitions": 0, "exception_edges": 0, "exception_surplus": 0,
            "validated_ops": {}, "findings": 0, "reported": 0, "with_handlers": 0}
-    avoid = set(diffrun.AVOID_V8) - {"fn_to_string", "v8_accessor_spread_order", "stmt_completion_value", "error_to_string", "assign_const_in_tdz"}
+    avoid = set(diffrun.AVOID_V8) - {"fn_to_string", "v8_accessor_spread_order", "stmt_completion_value", "error_to_string", "v8_double_key_coercion"}
     batch = 4000
     done = 0
     samples = []
